@@ -47,6 +47,7 @@ func NewActiveTestPacket(seqID uint32) []byte {
 }
 
 func now() (string, uint32) {
+	clockYield()
 	s := time.Now().Format("0102150405")
 	i, _ := strconv.Atoi(s)
 	return s, uint32(i)
